@@ -35,13 +35,21 @@ fn same_result(a: &Outcome, b: &Outcome) -> bool {
     }
 }
 
+/// H3: the propagation-round monitor of the provider (see `Prov::round_monitor`).
+fn round_faults(sess: &crate::run::Session, what: &str, ctx: &mut Ctx) {
+    ctx.rep.add("h3:propagation-rounds-observed", sess.prov().rounds_seen.get());
+    for f in sess.prov().round_faults.borrow().iter() {
+        ctx.violation(format!("h3: {f}"), what.to_string());
+    }
+}
+
 impl Monitor for C12 {
     type Case = C12Case;
     fn id(&self) -> &'static str {
         "C12"
     }
     fn rule(&self) -> String {
-        "cases = seeded universes (incl. soft lists and hints); for each case a baseline run counts the cancellation polls P, then the case is re-run for EVERY poll index k < min(P, cap) with the signal first firing at poll k (sticky for even k, transient for odd k), synchronously and under 2 async policies (signal arrives while sibling futures are parked). The cancel value is the unique integer k. Oracle per (case, mode, k): if the signal fired: result is Cancelled carrying exactly k, and no get_candidates/get_dependencies call event follows the firing poll in the log; If it never fired (async order moved the polls): result equals the baseline of that mode. Separately: a provider that is polled but never fires gives the same result as the baseline. distinct = (content hash, mode, k); non-trivial = fired with >= 1 sibling future parked, or inside a soft-requirement phase".into()
+        "cases = seeded universes (incl. soft lists and hints); for each case a baseline run counts the cancellation polls P, then the case is re-run for EVERY poll index k < min(P, cap) with the signal first firing at poll k (sticky for even k, transient for odd k), synchronously and under 2 async policies (signal arrives while sibling futures are parked). The cancel value is the unique integer k. Oracle per (case, mode, k): if the signal fired: result is Cancelled carrying exactly k, and no get_candidates/get_dependencies call event follows the firing poll in the log; If it never fired (async order moved the polls): result equals the baseline of that mode. Then, for EVERY provider callback event j < cap (call and return events of get_candidates / get_dependencies / filter / sort), the case is re-run with the signal raised for good while the provider handles event j: no get_candidates/get_dependencies call may start after the raise (each is documented to be preceded by a poll), the result must be Cancelled with the value of the first poll that observed it, and (hook H3, a counter of propagation rounds sampled at every provider event) every propagation round begins with a poll. Separately: a provider that is polled but never fires gives the same result as the baseline. distinct = (content hash, mode, k); non-trivial = fired with >= 1 sibling future parked, or inside a soft-requirement phase".into()
     }
     fn cases(&self, tier: Tier) -> u64 {
         tier.pick(12_000, 240_000)
@@ -68,6 +76,7 @@ impl Monitor for C12 {
                 ctx.rep.count("baseline-not-a-verdict (see C04/C10)");
                 continue;
             }
+            round_faults(&bs, &format!("mode {:?}, baseline", mode), ctx);
             let npolls = bs.prov().polls.get();
             ctx.rep.max("max-polls-in-baseline", npolls as u64);
             for k in 0..npolls.min(c.cap) {
@@ -78,6 +87,7 @@ impl Monitor for C12 {
                 let log = sess.log();
                 let fired = log.iter().position(|e| matches!(e, Ev::CancelPoll(_, true)));
                 let what = format!("mode {:?} cancel {:?}", mode, cancel);
+                round_faults(&sess, &what, ctx);
                 match (&out, fired) {
                     (Outcome::Panic(pi), _) => ctx.violation(format!("panic while cancelling: {}", pi.signature()), what.clone()),
                     (Outcome::Deadlock, _) => ctx.violation("deadlock while cancelling", what.clone()),
@@ -133,6 +143,67 @@ impl Monitor for C12 {
                 // marker is decided by C13
                 if sess.solver.verif_in_flight() != 0 {
                     ctx.rep.count("h2:in-flight-marker-present-after-return");
+                }
+            }
+            // the signal is raised by the application WHILE the provider handles a request (call or
+            // return event j of any callback) and stays up: the documented poll points (in front of
+            // every get_candidates / get_dependencies call, at the start of every propagation round)
+            // then imply that no further metadata request is started and that the answer of a
+            // metadata request is never turned into a result without a poll
+            let nevents = bs.prov().cb_events.get();
+            ctx.rep.max("max-callback-events-in-baseline", nevents as u64);
+            for j in 0..nevents.min(c.cap) {
+                ctx.rep.evaluations += 1;
+                let cancel = Cancel::RaisedAt(j);
+                let opts = SolveOpts { cancel, ..base_opts.clone() };
+                let (sess, out) = solve_once(&u, &c.p, &opts);
+                let log = sess.log();
+                let what = format!("mode {:?} cancel {:?}", mode, cancel);
+                round_faults(&sess, &what, ctx);
+                let Some(pos) = log.iter().position(|e| matches!(e, Ev::Raised(_))) else {
+                    ctx.rep.count("raise-point-not-reached");
+                    continue;
+                };
+                ctx.rep.count("signal-raised-during-a-provider-callback");
+                let at = log[pos - 1].clone();
+                let at_kind = match &at {
+                    Ev::CandCall(_) => "get_candidates(call)",
+                    Ev::CandRet(_) => "get_candidates(return)",
+                    Ev::DepsCall(_) => "get_dependencies(call)",
+                    Ev::DepsRet(_) => "get_dependencies(return)",
+                    Ev::Filter(..) | Ev::FilterRet(..) => "filter_candidates",
+                    _ => "sort_candidates",
+                };
+                ctx.rep.count(&format!("raised-during:{at_kind}"));
+                if let Some(e) = log[pos..].iter().find(|e| matches!(e, Ev::CandCall(_) | Ev::DepsCall(_))) {
+                    ctx.violation("metadata request started after the signal was raised (no poll in front of it)", format!("{what}: raised during {:?}, then {:?}", at, e));
+                }
+                let fired = log[pos..].iter().find_map(|e| if let Ev::CancelPoll(k, true) = e { Some(*k) } else { None });
+                match (&out, fired) {
+                    (Outcome::Panic(pi), _) => ctx.violation(format!("panic while cancelling: {}", pi.signature()), what.clone()),
+                    (Outcome::Deadlock, _) => ctx.violation("deadlock while cancelling", what.clone()),
+                    (Outcome::Budget, _) => ctx.violation("step budget exceeded while cancelling", what.clone()),
+                    (Outcome::Cancelled(val), Some(k)) => {
+                        if *val != Some(k) {
+                            ctx.violation("Cancelled carries a different value", format!("{what}: first observed at poll {k}, result carries {:?}", val));
+                        }
+                        let still_parked = sess.prov().sched.parked.borrow().len();
+                        if still_parked > 0 {
+                            ctx.rep.count("raised:observed-with-sibling-futures-parked");
+                            ctx.rep.nontrivial.insert(h ^ ((mi as u64) << 56) ^ ((j as u64) << 40) ^ 0x5555);
+                        }
+                    }
+                    (_, Some(_)) => ctx.violation("cancellation fired but result is not Cancelled", format!("{what}: result {}", out.tag())),
+                    (Outcome::Cancelled(_), None) => ctx.violation("Cancelled without a signal", what.clone()),
+                    (_, None) => {
+                        // nobody polled after the raise: the run ended without another propagation
+                        // round (e.g. a soft requirement rejected by its first clauses) - whether a
+                        // round that did take place polled is decided by H3
+                        ctx.rep.count("raised-and-never-polled-again");
+                        if !same_result(&out, &base) && matches!(mode, Mode::Sync) {
+                            ctx.violation("polling changed the result although the signal never fired", what.clone());
+                        }
+                    }
                 }
             }
             // never firing, with a provider that queries the cache from sort_candidates and abandons
